@@ -129,7 +129,7 @@ def decode_attr(code, value):
     return cls.parse(value)
 
 
-def roundtrip(w, code, raw_items):
+def roundtrip(w, code, raw_items, endpoint='json_to_bin'):
     """raw_items: list of element encodings of one attribute. Returns (symptom or None, detail)"""
     value = b''.join(raw_items)
     st, texts, steps = budget.run(50000, decode_attr, code, value)
@@ -138,12 +138,26 @@ def roundtrip(w, code, raw_items):
     if len(texts) != len(raw_items) or not all(isinstance(t, str) for t in texts):
         return 'decoder rendered %r' % (texts,), None
     body = {'attr': {'1': 0, '2': [], '3': '10.0.0.1', str(code): texts}, 'nlri': ['10.9.0.0/16']}
-    try:
-        status, js, rawresp = w.rest('POST', '/v1/peer/<ip>/json_to_bin', json=body, raw=True)
-    except Exception as e:     # noqa
-        return 'REST json_to_bin raised %s' % type(e).__name__, {'text': texts, 'error': str(e)[:200]}
-    if status != 200 or not isinstance(js, dict) or 'bin' not in js:
-        return 'REST json_to_bin refused the decoder\'s own text (status %s)' % status, {'text': texts, 'json': js}
+    if endpoint == 'send/update':
+        # the second REST view has its own copy of the text -> value code: read what it put on the wire
+        t = w.readable()[0].transport
+        before = len(t.writes)
+        try:
+            status, js, rawresp = w.rest('POST', '/v1/peer/<ip>/send/update', json=body, raw=True)
+            w.sim.drain_threads()
+        except Exception as e:     # noqa
+            return 'REST send/update raised %s' % type(e).__name__, {'text': texts, 'error': str(e)[:200]}
+        new = [d for _, d in t.writes[before:]]
+        if status != 200 or not isinstance(js, dict) or js.get('status') is not True or len(new) != 1:
+            return 'REST send/update refused the decoder\'s own text (status %s)' % status, {'text': texts, 'json': js, 'written': len(new)}
+        js = {'bin': new[0].hex()}
+    else:
+        try:
+            status, js, rawresp = w.rest('POST', '/v1/peer/<ip>/json_to_bin', json=body, raw=True)
+        except Exception as e:     # noqa
+            return 'REST json_to_bin raised %s' % type(e).__name__, {'text': texts, 'error': str(e)[:200]}
+        if status != 200 or not isinstance(js, dict) or 'bin' not in js:
+            return 'REST json_to_bin refused the decoder\'s own text (status %s)' % status, {'text': texts, 'json': js}
     try:
         msg = bytes.fromhex(js['bin'])
         frames, err, rest = wire.deframe(msg)
@@ -176,13 +190,14 @@ def task(args):
     n = 0
     for entry in items:
         code, labels, raws = entry
-        n += 1
-        sym, det = roundtrip(w, code, raws)
-        classes.add((code, labels, sym))
-        if sym:
-            d = {'attr': code, 'kinds': labels, 'bytes': [r.hex() for r in raws]}
-            d.update(det or {})
-            v.append(('C17|%s|%s|%s' % ({16: 'ext', 8: 'community', 32: 'large'}[code], '+'.join(labels), sym), d))
+        for endpoint in ('json_to_bin', 'send/update'):
+            n += 1
+            sym, det = roundtrip(w, code, raws, endpoint)
+            classes.add((code, labels, endpoint, sym))
+            if sym:
+                d = {'attr': code, 'kinds': labels, 'bytes': [r.hex() for r in raws], 'endpoint': endpoint}
+                d.update(det or {})
+                v.append(('C17|%s|%s|%s' % ({16: 'ext', 8: 'community', 32: 'large'}[code], '+'.join(labels), sym), d))
     return n, v, classes
 
 
@@ -219,7 +234,7 @@ def run(tier, seed):
         'evaluations': total, 'distinct_nontrivial': len(classes),
         'rule': 'from bytes: %d extended communities (18 type codes x field boundary values), %d communities (all 11 well-known values + '
                 'boundary values), %d large communities (each field in {0,1,2^31,2^32-1}); each decoded by the agent, the text posted '
-                'to POST /v1/peer/<ip>/json_to_bin in an Established 4-octet-AS session, the produced attribute compared by the reference '
+                'to POST /v1/peer/<ip>/json_to_bin AND to POST /v1/peer/<ip>/send/update (which has its own copy of the text-to-value code; bytes read from the transport) in an Established 4-octet-AS session, the produced attribute compared by the reference '
                 'reading of the value and re-decoded; plus all ordered pairs of different kinds in one request. distinct = (attribute, '
                 'kinds, symptom)' % (len(ext), len(cp), len(lp)),
         'samples': [{'attribute': it[0], 'kinds': list(it[1]), 'bytes': [b.hex() for b in it[2]]} for it in report.pick(items, seed, 3)],
@@ -236,8 +251,8 @@ def replay(path):
     d = json.load(open(path))
     w = d['witness']
     raws = [bytes.fromhex(x) for x in w['bytes']]
-    r1 = roundtrip(world(), w['attr'], raws)
-    r2 = roundtrip(world(), w['attr'], raws)
+    r1 = roundtrip(world(), w['attr'], raws, w.get('endpoint', 'json_to_bin'))
+    r2 = roundtrip(world(), w['attr'], raws, w.get('endpoint', 'json_to_bin'))
     if repr(r1) != repr(r2):
         print('HARNESS-ERROR: replay is not deterministic')
         return 2
